@@ -88,7 +88,8 @@ fn check_pattern_exhaustiveness_item(statics: &mut StaticsContext, stmt: &Item) 
 
 fn check_pattern_exhaustiveness_stmt(statics: &mut StaticsContext, stmt: &Stmt) {
     match &*stmt.kind {
-        StmtKind::Assign(_, _, expr) => {
+        StmtKind::Assign(lhs, _, expr) => {
+            check_pattern_exhaustiveness_expr(statics, lhs);
             check_pattern_exhaustiveness_expr(statics, expr);
         }
         StmtKind::Let(_, _, expr) => {
@@ -121,6 +122,12 @@ fn check_pattern_exhaustiveness_stmt(statics: &mut StaticsContext, stmt: &Stmt) 
 fn check_pattern_exhaustiveness_expr(statics: &mut StaticsContext, expr: &Rc<Expr>) {
     match &*expr.kind {
         ExprKind::Match(scrutiny, arms) => {
+            // matches nested in the scrutinee or in an arm body are checked too
+            check_pattern_exhaustiveness_expr(statics, scrutiny);
+            for arm in arms {
+                check_pattern_exhaustiveness_stmt(statics, &arm.stmt);
+            }
+
             if statics.solution_of_node(scrutiny.node()).is_none() {
                 return;
             }
@@ -186,7 +193,9 @@ fn check_pattern_exhaustiveness_expr(statics: &mut StaticsContext, expr: &Rc<Exp
         ExprKind::Try(expr) => {
             check_pattern_exhaustiveness_expr(statics, expr);
         }
-        ExprKind::TaskBlock(_) => {}
+        ExprKind::TaskBlock(body) => {
+            check_pattern_exhaustiveness_expr(statics, body);
+        }
     }
 }
 
